@@ -4,7 +4,10 @@ import (
 	"encoding/json"
 	"fmt"
 	"net/http/httptest"
+	"os"
 	"strings"
+	"sync"
+	"sync/atomic"
 	"time"
 )
 
@@ -354,6 +357,90 @@ func suiteV06(c *vctx) {
 	}
 }
 
+// suiteV06conc: the gates under CONCURRENT requests (every handler goroutine of a mux shares the
+// session factory and the store interface): an administrator keeps listing while an ordinary
+// user — with her own, valid, non-admin session of the same length — tries every management
+// action. None of her requests may succeed, disclose the list or change the store.
+func suiteV06conc(c *vctx) {
+	if c.shard > 1 {
+		return
+	}
+	a, err := newVAgent(c, fmt.Sprintf("conc%d", c.shard), 1, "", "", "", "")
+	if err != nil {
+		return
+	}
+	a.iface.Init("admin", "Admin-Passw0rd")
+	a.iface.Add("anna", "Anna-Passw0rd", false) // "admin:true:<ts>" and "anna:false:<ts>" have the same length
+	a.iface.Add("carol", "Carol-Passw0rd", false)
+	call := func(ep string, m map[string]interface{}) (int, string) {
+		b, _ := json.Marshal(m)
+		rec := httptest.NewRecorder()
+		a.mux.ServeHTTP(rec, httptest.NewRequest("POST", "/api/"+ep, strings.NewReader(string(b))))
+		return rec.Code, rec.Body.String()
+	}
+	tok := func(u, p string) string {
+		_, body := call("authenticate", map[string]interface{}{"username": u, "password": p})
+		var m map[string]interface{}
+		json.Unmarshal([]byte(body), &m)
+		s, _ := m["session"].(string)
+		return s
+	}
+	adminTok, annaTok := tok("admin", "Admin-Passw0rd"), tok("anna", "Anna-Passw0rd")
+	pre := dirDigest(a.dirPath)
+	dur := 300 * time.Millisecond
+	if c.thorough() {
+		dur = 3 * time.Second
+	}
+	stopAt := time.Now().Add(dur)
+	var wg sync.WaitGroup
+	var bad, total, adminRefused int64
+	var first atomic.Value
+	for w := 0; w < 4; w++ {
+		wg.Add(2)
+		go func() {
+			defer wg.Done()
+			for time.Now().Before(stopAt) {
+				if code, _ := call("list", map[string]interface{}{"session": adminTok}); code != 200 {
+					atomic.AddInt64(&adminRefused, 1)
+				}
+			}
+		}()
+		go func(w int) {
+			defer wg.Done()
+			for k := 0; time.Now().Before(stopAt); k++ {
+				var code int
+				var body, what string
+				switch (k + w) % 4 {
+				case 0:
+					what = "list"
+					code, body = call("list", map[string]interface{}{"session": annaTok})
+				case 1:
+					what = "set-admin"
+					code, body = call("set-admin", map[string]interface{}{"session": annaTok, "username": "anna", "admin": true})
+				case 2:
+					what = "update-other"
+					code, body = call("update", map[string]interface{}{"session": annaTok, "username": "carol", "newpassword": "Stolen-Passw0rd"})
+				default:
+					what = "add"
+					code, body = call("add", map[string]interface{}{"session": annaTok, "username": "mallory", "password": "Mallory-Passw0rd", "admin": true})
+				}
+				atomic.AddInt64(&total, 1)
+				if code == 200 || strings.Contains(body, "carol") {
+					if atomic.AddInt64(&bad, 1) == 1 {
+						first.Store(fmt.Sprintf("%s status=%d", what, code))
+					}
+				}
+			}
+		}(w)
+	}
+	wg.Wait()
+	why, _ := first.Load().(string)
+	c.emit(fmt.Sprintf("law.C06.management_effect_requires_admin_session concurrent requests=%d accepted=%d %s", total, bad, vxs(why)), vtf(bad == 0))
+	c.emit("law.C06.refused_requests_leave_store_unchanged concurrent", vtf(dirDigest(a.dirPath) == pre))
+	c.emit(fmt.Sprintf("law.C06.admin_session_accepted_under_concurrency refused=%d", adminRefused), vtf(adminRefused == 0))
+	os.RemoveAll(a.dirPath)
+}
+
 func encTok(n, c []byte) string { return b64u(n) + ":" + b64u(c) }
 
-func init() { vsuites["v06"] = suiteV06 }
+func init() { vsuites["v06"] = suiteV06; vsuites["v06c"] = suiteV06conc }
